@@ -857,7 +857,7 @@ class Fun:
             if d and len(d) == 2 and None not in d:
                 return S.Eq(d[0], d[1]) if tr else S.Ne(d[0], d[1])
             return ("unparsed",)
-        if nd["k"] in ("DeclRefExpr", "MemberExpr") and nd.get("ty") == "bool":
+        if nd["k"] in ("DeclRefExpr", "MemberExpr") and nd.get("ty") in ("bool", "const bool"):
             return ("atom", render(nd), tr)
         # 'x == 0' / 'x != 0' are normalised by the CFG layer to the truthiness of x
         if ("int" in (nd.get("ty") or "") or "long" in (nd.get("ty") or "")) and "*" not in (nd.get("ty") or ""):
